@@ -85,6 +85,8 @@ def verify_one(args):
         out['lib'] = sorted(lib)
         out['inlined'] = sorted(inl)
         out['called'] = sorted(called)
+        out['called_assumed'] = {c: (api.CONTRACTS[c].note or 'assumed') for c in called if c in api.CONTRACTS and api.CONTRACTS[c].assumed}
+        out['called_conditional'] = {c: list(api.CONTRACTS[c].under) for c in called if c in api.CONTRACTS and api.CONTRACTS[c].under}
         out['wf_used'] = sorted(wf)
 
         def work(h):
